@@ -1859,7 +1859,7 @@ EVERY label `t` (`Operand.valAt`: NaN outside the result's index).  Under `ij` /
 (`binop_index_inner / _outer`); under `lj` / `rj` the result index is the first / last operand's, so the values agree on the
 labels both results have and are NaN elsewhere.  SCOPE (round l4, review w4 F1): the model's scalars are NUMBERS; of the code this was
 false for scalars spelled as narrow numpy integers (`mul_([np.int8(100), np.int8(100), s])` was `16 * s`: numpy's scalar arithmetic wraps
-around before the Series is met) until repo fix eba8e58 reads them with `int()`; npx lines check the order-independence on the
+around before the Series is met) until repo fix 2068b44 reads them with `int()`; npx lines check the order-independence on the
 implementation.  Narrow numpy FLOATS among themselves (float16 overflow, float32 rounding) stay outside (float rounding).  Proof: `foldl_binop_mixed` + `List.Perm.foldl_eq'` with `appO_right_comm`. -/
 theorem reduce_perm_value (op : Op) (hop : op = .add ∨ op = .mul) (how : How) (x y x' y' : Operand) (xs xs' : List Operand)
     (hp : (x :: y :: xs).Perm (x' :: y' :: xs')) (r r' : Operand)
